@@ -446,6 +446,7 @@ type c27Res struct {
 	Warnings []string
 	Typ      parser.ValueType
 	Dup      string // non-empty: the result held the same label set twice at one timestamp
+	DupMixed bool   // ... once as float and once as histogram
 }
 
 func c27Extract(r *promql.Result) *c27Res {
@@ -463,8 +464,11 @@ func c27Extract(r *promql.Result) *c27Res {
 			st = c27Step{}
 			out.Steps[t] = st
 		}
-		if _, dup := st[key]; dup {
+		if prev, dup := st[key]; dup {
 			out.Dup = fmt.Sprintf("%s at %d", key, t)
+			if (prev.H == nil) != (v.H == nil) {
+				out.DupMixed = true
+			}
 		}
 		st[key] = v
 		out.Order[t] = append(out.Order[t], key)
